@@ -48,7 +48,7 @@ def gen_cases(ctx):
     quick = ctx.quick
     # ---- A. the space TLC enumerated (shapes x material sets x arrays over the grid).
     # thorough: every array, as in the model.  quick: every array for the 1-voxel shapes and (material sets of size
-    # <= 3) two of the 2-voxel shapes; for all other shapes the family of V "shifted" arrays in which every voxel
+    # <= 3) the 2-voxel shape (2,); for all other shapes the family of V "shifted" arrays in which every voxel
     # position sees every grid value (the transform is voxel-wise; what the other arrays add is covered by TLC).
     shapes_all = SHAPES2 if quick else SHAPES2 + SHAPES3
     shapes_big = SHAPES3 if quick else SHAPES4
@@ -57,7 +57,7 @@ def gen_cases(ctx):
         cells = 1
         for d in sh:
             cells *= d
-        if (not quick) or cells == 1 or (n <= 3 and tuple(sh) in ((2,), (1, 2, 1))):
+        if (not quick) or cells == 1 or (n <= 3 and tuple(sh) == (2,)):
             yield from itertools.product(grid, repeat=cells)
         else:
             V = len(grid)
@@ -154,23 +154,29 @@ def observe(case):
     rec = {"id": case["id"], "mode": case["mode"], "den": den, "n": n, "eps": case["eps"], "shape": list(shape), "inp": case["inp"],
            "err": "", "oshape": [], "out": [], "odev": 0, "gerr": "skipped", "gshape": [], "ct": [], "gout": [], "gdev": 0}
     f = lambda a: t({"params": a})["params"]  # noqa: E731
+    # one real call: jax.vjp runs __call__ once and returns its output together with the pullback
+    pull = None
     try:
-        y = f(x)
-    except Exception as ex:  # the property says an array comes back: an exception is an observation, not a crash
-        rec["err"] = (type(ex).__name__ + ": " + str(ex))[:160]
-        return rec
+        y, pull = jax.vjp(f, x)
+    except Exception as ex:
+        rec["gerr"] = (type(ex).__name__ + ": " + str(ex))[:160]
+        try:
+            y = f(x)
+        except Exception as ex2:  # the property says an array comes back: an exception is an observation, not a crash
+            rec["err"] = (type(ex2).__name__ + ": " + str(ex2))[:160]
+            return rec
     rec["oshape"] = [int(s) for s in y.shape]
     rec["out"], rec["odev"] = _round(y)
     ct = np.arange(1, y.size + 1, dtype=np.float64).reshape(y.shape)
     rec["ct"] = [int(v) for v in ct.ravel()]
-    try:
-        _, vjp = jax.vjp(f, x)
-        (g,) = vjp(jnp.asarray(ct))
-        rec["gerr"] = ""
-        rec["gshape"] = [int(s) for s in g.shape]
-        rec["gout"], rec["gdev"] = _round(g)
-    except Exception as ex:
-        rec["gerr"] = (type(ex).__name__ + ": " + str(ex))[:160]
+    if pull is not None:
+        try:
+            (g,) = pull(jnp.asarray(ct))
+            rec["gerr"] = ""
+            rec["gshape"] = [int(s) for s in g.shape]
+            rec["gout"], rec["gdev"] = _round(g)
+        except Exception as ex:
+            rec["gerr"] = (type(ex).__name__ + ": " + str(ex))[:160]
     return rec
 
 
